@@ -133,10 +133,18 @@ def build_harness(shapes, profile='debug'):
         import shutil
         shutil.copy(os.path.join(REPO, 'Cargo.lock'), lock)
     flags = '--release' if profile == 'release' else ''
-    rc, out = sh('cargo build --offline %s' % flags, cwd=hdir, timeout=1800)
-    if rc != 0:
-        raise BuildError('harness build', out)
-    return os.path.join(CACHE, 'target', profile, 'flatty-verif-harness')
+    binary = os.path.join(CACHE, 'target', profile, 'flatty-verif-harness')
+    want = ['%s %s' % (sid, shp.sexp(t)) for sid, t in shapes]
+    for attempt in range(2):
+        rc, out = sh('cargo build --offline %s' % flags, cwd=hdir, timeout=1800)
+        if rc != 0:
+            raise BuildError('harness build', out)
+        # the binary must be the one built from these shapes (another process may have rebuilt it meanwhile)
+        rc2, got = sh([binary, '--shapes'], timeout=60)
+        if rc2 == 0 and got.split('\n')[:len(want)] == want:
+            return binary
+        os.utime(p, None)
+    raise BuildError('harness build', 'the harness binary does not correspond to the generated shapes')
 
 
 # ---------------------------------------------------------------- running
